@@ -84,7 +84,7 @@ def extract(units, tag, headers=False, summary=False, jobs=None):
     if not os.path.exists(BIN):
         raise AnalysisBroken("extractor not built: run `make -C /verif tool`")
     ensure_gen()
-    outdir = os.path.join(WORK, "facts", tag)
+    outdir = os.path.join(WORK, "facts", tag + os.environ.get("GSA_WORKTAG", ""))     # GSA_WORKTAG: concurrent runs (selftests, seeded matrix)
     shutil.rmtree(outdir, ignore_errors=True)
     os.makedirs(outdir)
     missing = [u for u in units if not os.path.exists(u)]
@@ -422,11 +422,11 @@ def extract_headers(tag):
     hs.sort()
     ensure_gen()
     excluded = []
-    unit = os.path.join(GEN, "all_headers_%s.cpp" % tag)
+    unit = os.path.join(GEN, "all_headers_%s%s.cpp" % (tag, os.environ.get("GSA_WORKTAG", "")))
     for attempt in range(6):
         with open(unit, "w") as f:
             f.write("".join('#include "%s"\n' % h for h in hs if h not in excluded))
-        outdir = os.path.join(WORK, "facts", tag)
+        outdir = os.path.join(WORK, "facts", tag + os.environ.get("GSA_WORKTAG", ""))
         shutil.rmtree(outdir, ignore_errors=True)
         os.makedirs(outdir)
         u, rc, err, _ = _run_one((unit, outdir, True, False))
